@@ -42,34 +42,141 @@ struct Sched {
     queue_mode: bool,
 }
 
+/// Which shared object of a level (by creation offset) plays which role in the model.  Learned once per process by
+/// running a fixed single-threaded scenario with distinctive values under a recording hook, so that an object added to
+/// or removed from the level / queue / statistics does not silently shift the identification.
+struct Calib {
+    level_roles: Vec<Option<&'static str>>,
+    queue_roles: Vec<Option<&'static str>>,
+    problems: Vec<String>,
+}
+
+struct Recorder {
+    log: Mutex<Vec<(usize, &'static str, &'static str, u64)>>,
+}
+impl Hook for Recorder {
+    fn before(&self, obj: usize, kind: &'static str, op: &'static str, num: u64, _a: Option<&dyn Any>) {
+        self.log.lock().unwrap().push((obj, kind, op, num));
+    }
+    fn after(&self, _obj: usize, _op: &'static str, _num: u64, _r: Option<&dyn Any>) {}
+}
+
+const EXPECT_LEVEL_OBJECTS: usize = 13; // 3 aggregates, map, ticket queue, 5 modelled statistics, 3 time statistics
+const EXPECT_QUEUE_OBJECTS: usize = 2;
+
+fn calibrate() -> Calib {
+    let mut problems = Vec::new();
+    let rec = Arc::new(Recorder { log: Mutex::new(Vec::new()) });
+    // ---- level
+    let base = verif_sync::next_id();
+    let lvl = PriceLevel::new(1000);
+    let span = verif_sync::next_id() - base;
+    let generator = UuidGenerator::new(Uuid::parse_str(crate::level::NS_MAIN).unwrap());
+    verif_sync::set_hook(Some(rec.clone() as Arc<dyn Hook>));
+    let take = |rec: &Recorder| -> Vec<(usize, &'static str, &'static str, u64)> { std::mem::take(&mut *rec.log.lock().unwrap()) };
+    let mut roles: Vec<Option<&'static str>> = vec![None; span];
+    let mut set = |roles: &mut Vec<Option<&'static str>>, problems: &mut Vec<String>, obj: usize, role: &'static str| {
+        if obj < base || obj - base >= roles.len() {
+            return;
+        }
+        let slot = &mut roles[obj - base];
+        match slot {
+            None => *slot = Some(role),
+            Some(r) if *r == role => {}
+            Some(r) => problems.push(format!("calibration: object {} looks like both {} and {}", obj - base, r, role)),
+        }
+    };
+    lvl.add_order(order_of_str("I:u1:1000:S:10:GTC:1234567:7654321").unwrap());
+    let ev_add = take(&rec);
+    let _ = lvl.update_order(update_of_str("C:u1").unwrap());
+    let ev_cancel = take(&rec);
+    lvl.add_order(order_of_str("S:u2:1000:S:11:GTC:3").unwrap());
+    let _ = take(&rec);
+    let _ = lvl.match_order(3, oid_of_str("u3").unwrap(), &generator);
+    let ev_match = take(&rec);
+    verif_sync::set_hook(None);
+    for &(o, k, op, n) in &ev_add {
+        match (k, op, n) {
+            ("u64", "fetch_add", 1234567) => set(&mut roles, &mut problems, o, "vis"),
+            ("u64", "fetch_add", 7654321) => set(&mut roles, &mut problems, o, "hid"),
+            ("map", "insert", _) => set(&mut roles, &mut problems, o, "map"),
+            ("queue", "push", _) => set(&mut roles, &mut problems, o, "tk"),
+            _ => {}
+        }
+    }
+    for &(o, k, op, n) in &ev_cancel {
+        match (k, op, n) {
+            ("usize", "fetch_sub", 1) => set(&mut roles, &mut problems, o, "cnt"),
+            ("usize", "fetch_add", 1) => set(&mut roles, &mut problems, o, "srem"),
+            _ => {}
+        }
+    }
+    for &(o, k, op, n) in &ev_add {
+        if (k, op, n) == ("usize", "fetch_add", 1) && o >= base && o - base < span && roles[o - base].is_none() {
+            set(&mut roles, &mut problems, o, "sadd");
+        }
+    }
+    for &(o, k, op, n) in &ev_match {
+        match (k, op, n) {
+            ("u64", "fetch_add", 3) => set(&mut roles, &mut problems, o, "sqty"),
+            ("u64", "fetch_add", 3000) => set(&mut roles, &mut problems, o, "sval"),
+            ("usize", "fetch_add", 1) if o >= base && o - base < span && roles[o - base].is_none() => set(&mut roles, &mut problems, o, "sexe"),
+            _ => {}
+        }
+    }
+    for want in ["vis", "hid", "cnt", "map", "tk", "sadd", "srem", "sexe", "sqty", "sval"] {
+        if roles.iter().filter(|r| **r == Some(want)).count() != 1 {
+            problems.push(format!("calibration: no unique shared object plays the role {want}"));
+        }
+    }
+    if span != EXPECT_LEVEL_OBJECTS {
+        problems.push(format!("a level creates {span} shared objects, the model accounts for {EXPECT_LEVEL_OBJECTS}"));
+    }
+    // ---- queue alone
+    let qbase = verif_sync::next_id();
+    let q = pricelevel::OrderQueue::new();
+    let qspan = verif_sync::next_id() - qbase;
+    verif_sync::set_hook(Some(rec.clone() as Arc<dyn Hook>));
+    q.push(Arc::new(order_of_str("S:u1:1000:S:10:GTC:5").unwrap()));
+    let ev_push = take(&rec);
+    verif_sync::set_hook(None);
+    let mut qroles: Vec<Option<&'static str>> = vec![None; qspan];
+    for &(o, k, op, _) in &ev_push {
+        if o >= qbase && o - qbase < qspan {
+            match (k, op) {
+                ("map", "insert") => qroles[o - qbase] = Some("map"),
+                ("queue", "push") => qroles[o - qbase] = Some("tk"),
+                _ => {}
+            }
+        }
+    }
+    for want in ["map", "tk"] {
+        if qroles.iter().filter(|r| **r == Some(want)).count() != 1 {
+            problems.push(format!("calibration: no unique shared object of the queue plays the role {want}"));
+        }
+    }
+    if qspan != EXPECT_QUEUE_OBJECTS {
+        problems.push(format!("a queue creates {qspan} shared objects, the model accounts for {EXPECT_QUEUE_OBJECTS}"));
+    }
+    Calib { level_roles: roles, queue_roles: qroles, problems }
+}
+
+fn calib() -> &'static Calib {
+    static C: std::sync::OnceLock<Calib> = std::sync::OnceLock::new();
+    C.get_or_init(calibrate)
+}
+
 impl Sched {
     fn role(&self, obj: usize) -> Option<&'static str> {
+        let c = calib();
         if self.queue_mode {
-            return match obj.checked_sub(self.base) {
-                Some(0) => Some("map"),
-                Some(1) => Some("tk"),
-                _ => None,
-            };
+            return obj.checked_sub(self.base).and_then(|k| c.queue_roles.get(k).copied().flatten());
         }
         if obj == self.gen_id {
             return Some("gen");
         }
-        if obj < self.base {
-            return None;
-        }
-        match obj - self.base {
-            0 => Some("vis"),
-            1 => Some("hid"),
-            2 => Some("cnt"),
-            3 => Some("map"),
-            4 => Some("tk"),
-            5 => Some("sadd"),
-            6 => Some("srem"),
-            7 => Some("sexe"),
-            8 => Some("sqty"),
-            9 => Some("sval"),
-            _ => None, // time statistics and foreign objects: not scheduled, not logged
-        }
+        // time statistics, objects the model does not know and foreign objects: not scheduled, not logged
+        obj.checked_sub(self.base).and_then(|k| c.level_roles.get(k).copied().flatten())
     }
 }
 
@@ -86,21 +193,14 @@ thread_local! {
 }
 
 impl Hook for Sched {
-    fn before(&self, obj: usize, kind: &'static str, op: &'static str, num: u64, a: Option<&dyn Any>) {
+    fn before(&self, obj: usize, _kind: &'static str, op: &'static str, num: u64, a: Option<&dyn Any>) {
         let me = match ME.with(|m| m.get()) {
             Some(m) => m,
             None => return,
         };
-        let role = match self.role(obj) {
-            Some(r) => r,
-            None => return,
-        };
-        let expect_kind = match role {
-            "vis" | "hid" | "sqty" | "sval" | "gen" => "u64",
-            "cnt" | "sadd" | "srem" | "sexe" => "usize",
-            "map" => "map",
-            _ => "queue",
-        };
+        if self.role(obj).is_none() {
+            return;
+        }
         let arg = match a {
             Some(x) => any_order(x).or_else(|| any_oid(x)).unwrap_or_else(|| "?".into()),
             None => String::new(),
@@ -108,9 +208,6 @@ impl Hook for Sched {
         ARG.with(|c| *c.borrow_mut() = arg);
         CUR.with(|c| c.set(Some((obj, op, num))));
         let mut st = self.st.lock().unwrap();
-        if kind != expect_kind {
-            st.log.push(format!("X object {obj} has kind {kind}, expected {expect_kind} for {role}"));
-        }
         if st.running == Some(me) {
             st.running = None;
         }
@@ -207,6 +304,7 @@ fn do_call(lvl: &PriceLevel, generator: &UuidGenerator, op: &str) -> String {
 }
 
 pub fn run(modelrun: &str) {
+    let _ = calib();
     out::start_watchdog();
     let mut model = Model::spawn(modelrun);
     let stdin = std::io::stdin();
@@ -222,6 +320,9 @@ pub fn run(modelrun: &str) {
         let mode = if flags.contains("mode=C") { "C" } else { "O" };
         let drain = flags.split(',').any(|x| x == "drain");
         out::line(&format!("P {id}"));
+        for p in &calib().problems {
+            out::line(&format!("U {p}"));
+        }
 
         let base = verif_sync::next_id();
         let lvl = Arc::new(PriceLevel::new(price));
@@ -463,6 +564,7 @@ fn do_qcall(q: &pricelevel::OrderQueue, op: &str) -> String {
 }
 
 pub fn run_queue(modelrun: &str) {
+    let _ = calib();
     out::start_watchdog();
     let mut model = Model::spawn(modelrun);
     let stdin = std::io::stdin();
@@ -475,6 +577,9 @@ pub fn run_queue(modelrun: &str) {
         let f: Vec<&str> = line.split('|').collect();
         let (id, setup, threads, sched) = (f[0], f[1], f[2], f[3]);
         out::line(&format!("P {id}"));
+        for p in &calib().problems {
+            out::line(&format!("U {p}"));
+        }
         let base = verif_sync::next_id();
         let q = Arc::new(pricelevel::OrderQueue::new());
         model.call("QNEW");
@@ -628,6 +733,7 @@ pub fn run_queue(modelrun: &str) {
 // Same program lines as `conc`; the last field is the number of trials.  Judged here: aggregates
 // = sums over the listing at quiescence, and after a draining match nothing displayed is left.
 pub fn stress() {
+    let _ = calib();
     let stdin = std::io::stdin();
     use std::io::BufRead;
     for line in stdin.lock().lines() {
